@@ -1,13 +1,1599 @@
-//! C14 — not implemented yet (stub so that props/mod.rs never has to change).
-use crate::engine::PropSpec;
+//! C14 — Restore yields exactly the snapshot and never writes outside the target.
+//!
+//! Sub-check `existing`: (repository configuration, source tree, pre-existing destination derived
+//! from the snapshot by a generated mutation list + unrelated extra entries, restore options).
+//! The destination lives at `S/a/b/dest` inside a per-case sandbox `S` whose other entries are
+//! sentinels. Oracle: the model of the snapshot (per path: type / bytes / link target / mode /
+//! mtime / owner), the on-disk state of the destination *before* the restore (for the premise of
+//! the statement and for the extra entries), and the state of everything in `S` outside `dest`.
+//!
+//! Sub-check `hostile`: trees whose node names are `..`, `../x`, `../../x`, an absolute path into
+//! the sandbox, `a/b`, `.`, the empty string, a name with NUL. Oracle: nothing in `S` outside
+//! `dest` is created, modified or removed (an error or panic of the restore is acceptable).
+
+use std::{
+    collections::{BTreeMap, BTreeSet},
+    ffi::OsStr,
+    fs,
+    os::unix::{ffi::OsStrExt, fs::MetadataExt},
+    path::{Path, PathBuf},
+    sync::Arc,
+};
+
+use proptest::prelude::*;
+use rustic_core::{
+    IndexedFull, LocalDestination, LsOptions, Repository, RestoreOptions,
+    repofile::{Metadata, Node, NodeType, SnapshotFile},
+};
+use serde::{Deserialize, Serialize};
+
+use crate::{
+    engine::{Ctx, DynSub, Outcome, PropSpec, Sub, guarded, pick_idx},
+    fsutil::{FsEntry, FsKind, Scratch, walk},
+    r#gen::{TreeParams, content, leaf, mtime, name, node_at_mut, paths_where, perm, piece, tree},
+    membe::Storage,
+    model::{
+        Content, Flat, FlatEntry, FlatKind, MKind, MNode, MTime, MemSource, Piece, ReadSchedule,
+        flatten, name_os,
+    },
+    repo::{
+        RepoCfg, RepoFull, backup_tree, estr, force_opts, init_repo, open_full, read_snapshot,
+        repo_cfg, show_path, snap_template,
+    },
+};
+
+use super::c01::is_root;
+
+// ---------------------------------------------------------------------------------------------
+// shared: options, sandbox, outside-state
+// ---------------------------------------------------------------------------------------------
+
+#[derive(Debug, Clone, Copy, PartialEq, Eq, Serialize, Deserialize)]
+pub struct Opts {
+    pub delete: bool,
+    pub verify_existing: bool,
+    pub sparse: bool,
+    pub no_ownership: bool,
+    pub numeric_id: bool,
+}
+
+impl Opts {
+    fn restore_options(&self, root: bool) -> RestoreOptions {
+        let mut o = RestoreOptions::default()
+            .delete(self.delete)
+            .verify_existing(self.verify_existing)
+            .numeric_id(self.numeric_id)
+            // an unprivileged process cannot chown: ownership is then out of scope
+            .no_ownership(self.no_ownership || !root);
+        if self.sparse {
+            // the option type is not nameable, but the field is public and deserialisable
+            o.sparse = serde_json::from_str("\"ByContent\"").ok();
+        }
+        o
+    }
+}
+
+fn opts_strategy() -> impl Strategy<Value = Opts> {
+    (
+        any::<bool>(),
+        any::<bool>(),
+        prop::bool::weighted(0.3),
+        prop::bool::weighted(0.3),
+        any::<bool>(),
+    )
+        .prop_map(|(delete, verify_existing, sparse, no_ownership, numeric_id)| Opts {
+            delete,
+            verify_existing,
+            sparse,
+            no_ownership,
+            numeric_id,
+        })
+}
+
+const DEST_REL: &str = "a/b/dest";
+const OLD: i64 = 1_234_567_890;
+
+fn set_mtime(p: &Path, t: MTime) -> std::io::Result<()> {
+    let ft = filetime::FileTime::from_unix_time(t.0, t.1);
+    filetime::set_symlink_file_times(p, ft, ft)
+}
+
+/// Build the sandbox: `S/a/b/dest` (empty) and sentinels everywhere else. Returns the destination.
+fn make_sandbox(s: &Path) -> std::io::Result<PathBuf> {
+    let dest = s.join(DEST_REL);
+    fs::create_dir_all(&dest)?;
+    fs::create_dir_all(s.join("a/b/sib"))?;
+    fs::create_dir_all(s.join("abs-target"))?;
+    fs::create_dir_all(s.join("outside-dir"))?;
+    let files: [(&str, &[u8]); 8] = [
+        ("sentinel.txt", b"sentinel at the sandbox root"),
+        ("x", b"sentinel S/x"),
+        ("a/x", b"sentinel S/a/x"),
+        ("a/side.txt", b"sentinel next to b"),
+        ("a/b/x", b"sentinel S/a/b/x"),
+        ("a/b/sib/inner.txt", b"sentinel in the sibling of dest"),
+        ("abs-target/keep", b"sentinel in the absolute target"),
+        ("outside-dir/file", b"sentinel in a directory that extra symlinks point to"),
+    ];
+    for (rel, bytes) in files {
+        fs::write(s.join(rel), bytes)?;
+    }
+    std::os::unix::fs::symlink("sentinel.txt", s.join("link"))?;
+    // fixed old times, children before parents
+    let mut all: Vec<PathBuf> = walk(s)?
+        .keys()
+        .map(|k| s.join(OsStr::from_bytes(k)))
+        .collect();
+    all.sort();
+    for p in all.iter().rev() {
+        set_mtime(p, MTime(OLD, 5))?;
+    }
+    Ok(dest)
+}
+
+#[derive(Debug, Clone, PartialEq, Eq)]
+struct OutEntry {
+    e: FsEntry,
+    ctime: (i64, i64),
+}
+
+fn under_dest(k: &[u8]) -> bool {
+    k == DEST_REL.as_bytes()
+        || (k.len() > DEST_REL.len() && k.starts_with(DEST_REL.as_bytes()) && k[DEST_REL.len()] == b'/')
+}
+
+/// everything in the sandbox that is not the destination (or below it), with ctime
+fn outside_state(s: &Path) -> std::io::Result<BTreeMap<Vec<u8>, OutEntry>> {
+    let mut out = BTreeMap::new();
+    // the sandbox directory itself
+    let md = fs::symlink_metadata(s)?;
+    _ = out.insert(
+        b".".to_vec(),
+        OutEntry {
+            e: FsEntry {
+                kind: FsKind::Dir,
+                mode: md.mode() & 0o7777,
+                mtime: (md.mtime(), md.mtime_nsec() as u32),
+                ino: md.ino(),
+                nlink: md.nlink(),
+                uid: md.uid(),
+                gid: md.gid(),
+                size: 0,
+            },
+            ctime: (md.ctime(), md.ctime_nsec()),
+        },
+    );
+    for (k, e) in walk(s)? {
+        if under_dest(&k) {
+            continue;
+        }
+        let md = fs::symlink_metadata(s.join(OsStr::from_bytes(&k)))?;
+        _ = out.insert(
+            k,
+            OutEntry {
+                e,
+                ctime: (md.ctime(), md.ctime_nsec()),
+            },
+        );
+    }
+    Ok(out)
+}
+
+fn kind_name(k: &FsKind) -> &'static str {
+    match k {
+        FsKind::Dir => "dir",
+        FsKind::File(_) => "file",
+        FsKind::Symlink(_) => "symlink",
+        FsKind::Other => "other",
+    }
+}
+
+fn describe_change(a: &FsEntry, b: &FsEntry) -> String {
+    let mut what = Vec::new();
+    if kind_name(&a.kind) != kind_name(&b.kind) {
+        what.push(format!("type {} -> {}", kind_name(&a.kind), kind_name(&b.kind)));
+    } else if a.kind != b.kind {
+        what.push("content/target".to_string());
+    }
+    if a.mode != b.mode {
+        what.push(format!("mode {:#o} -> {:#o}", a.mode, b.mode));
+    }
+    if a.mtime != b.mtime {
+        what.push(format!("mtime {:?} -> {:?}", a.mtime, b.mtime));
+    }
+    if (a.uid, a.gid) != (b.uid, b.gid) {
+        what.push(format!("owner {}:{} -> {}:{}", a.uid, a.gid, b.uid, b.gid));
+    }
+    if a.ino != b.ino {
+        what.push("inode (replaced)".to_string());
+    }
+    if a.nlink != b.nlink {
+        what.push(format!("link count {} -> {}", a.nlink, b.nlink));
+    }
+    if what.is_empty() {
+        what.push("ctime only (metadata rewritten)".to_string());
+    }
+    what.join(", ")
+}
+
+/// None = nothing outside the destination changed
+fn outside_diff(
+    before: &BTreeMap<Vec<u8>, OutEntry>,
+    after: &BTreeMap<Vec<u8>, OutEntry>,
+) -> Option<String> {
+    let mut msgs = Vec::new();
+    for (k, a) in after {
+        match before.get(k) {
+            None => msgs.push(format!("created {} {:?}", kind_name(&a.e.kind), show_path(k))),
+            Some(b) if b != a => {
+                msgs.push(format!("modified {:?} ({})", show_path(k), describe_change(&b.e, &a.e)));
+            }
+            _ => {}
+        }
+    }
+    for k in before.keys() {
+        if !after.contains_key(k) {
+            msgs.push(format!("removed {:?}", show_path(k)));
+        }
+    }
+    if msgs.is_empty() {
+        None
+    } else {
+        let n = msgs.len();
+        msgs.truncate(5);
+        Some(format!("{n} change(s) outside the destination: {}", msgs.join("; ")))
+    }
+}
+
+/// keys whose finding the operator asked to treat as known while debugging (never set by `run`)
+fn assumed_known(key: &str) -> bool {
+    std::env::var("VP_ASSUME_KNOWN")
+        .map(|v| v.split(',').any(|k| k.trim() == key))
+        .unwrap_or(false)
+}
+
+/// choose the key to report: the first one that is listed as known, else the first one
+fn choose_key(ctx: &Ctx, keys: &[&'static str]) -> Option<&'static str> {
+    keys.iter()
+        .copied()
+        .find(|k| ctx.is_known(k))
+        .or_else(|| keys.first().copied())
+}
+
+fn finish(mut out: Outcome, ctx: &Ctx, keys: &[&'static str]) -> Outcome {
+    if let Some(k) = choose_key(ctx, keys) {
+        out = out.known(k);
+    }
+    if !ctx.strict {
+        if let Some(k) = keys.iter().find(|k| assumed_known(k)) {
+            out = out.skip(format!("assumed-known:{k}"));
+        }
+    }
+    out
+}
+
+/// restore the node at `node_path` of the snapshot ("" = the whole snapshot) into `dest`
+fn restore_at<S: IndexedFull>(
+    repo: &Repository<S>,
+    snap: &SnapshotFile,
+    node_path: &str,
+    dest: &Path,
+    opts: &RestoreOptions,
+) -> Result<(), String> {
+    let r = guarded(|| -> Result<(), String> {
+        let node = repo
+            .node_from_snapshot_and_path(snap, node_path)
+            .map_err(|e| format!("node {node_path:?}: {}", estr(&e)))?;
+        let ls = repo
+            .ls(&node, &LsOptions::default())
+            .map_err(|e| format!("ls: {}", estr(&e)))?;
+        let dest = LocalDestination::new(dest.to_str().expect("utf-8 scratch path"), true, false)
+            .map_err(|e| format!("destination: {}", estr(&e)))?;
+        let plan = repo
+            .prepare_restore(opts, ls.clone(), &dest, false)
+            .map_err(|e| format!("prepare_restore returned an error: {}", estr(&e)))?;
+        repo.restore(plan, opts, ls, &dest)
+            .map_err(|e| format!("restore returned an error: {}", estr(&e)))
+    });
+    match r {
+        Ok(x) => x,
+        Err(p) => Err(format!("restore panicked: {p}")),
+    }
+}
+
+// ---------------------------------------------------------------------------------------------
+// sub-check "existing"
+// ---------------------------------------------------------------------------------------------
+
+#[derive(Debug, Clone, Copy, PartialEq, Eq, Serialize, Deserialize)]
+pub enum Base {
+    /// the destination starts as an exact earlier restore of the snapshot (incl. mtimes)
+    Identical,
+    /// the destination starts empty
+    Empty,
+    /// same content, every mtime one hour older
+    Older,
+}
+
+#[derive(Debug, Clone, PartialEq, Eq, Serialize, Deserialize)]
+pub enum Mutn {
+    Absent,
+    Touch(MTime),
+    /// same-size overwrite at a generated offset; `None` keeps the snapshot's mtime
+    Corrupt { at: u16, with: Piece, mtime: Option<MTime> },
+    Truncate { keep: u16, mtime: Option<MTime> },
+    Extend { tail: Content, mtime: Option<MTime> },
+    /// replace the entry (and everything below it) by this node, keeping the name
+    Retype(MNode),
+    Chmod(u32),
+    /// symlink with another target of the same / a different length
+    Retarget { same_len: bool, mtime: Option<MTime> },
+}
+
+#[derive(Debug, Clone, PartialEq, Eq, Serialize, Deserialize)]
+pub struct Mutation {
+    pub sel: u16,
+    pub m: Mutn,
+}
+
+#[derive(Debug, Clone, Serialize, Deserialize)]
+pub struct ExCase {
+    pub cfg: RepoCfg,
+    pub tree: MNode,
+    /// restore a sub-directory of the snapshot instead of its root (selector over directories)
+    pub sub: Option<u16>,
+    pub base: Base,
+    pub muts: Vec<Mutation>,
+    /// unrelated entries: (directory selector, node)
+    pub extras: Vec<(u16, MNode)>,
+    pub opts: Opts,
+}
+
+fn small_dir(p: TreeParams) -> BoxedStrategy<MNode> {
+    (name(), prop::collection::vec(leaf(p), 0..3), perm(), mtime())
+        .prop_map(|(n, children, pe, mt)| {
+            let mut d = MNode {
+                name: n,
+                kind: MKind::Dir { children },
+                perm: pe | 0o700,
+                mtime: mt,
+                ctime: mt,
+                uid: 0,
+                gid: 0,
+                inode: 0,
+                device: 7,
+                links: 1,
+            };
+            d.normalise();
+            d
+        })
+        .boxed()
+}
+
+fn outside_link() -> BoxedStrategy<MNode> {
+    (
+        name(),
+        prop::sample::select(vec![
+            b"../../../sentinel.txt".to_vec(),
+            b"../../../../sentinel.txt".to_vec(),
+            b"../../../outside-dir".to_vec(),
+            b"../../../../outside-dir".to_vec(),
+            b"../../sib".to_vec(),
+            b"../../../a/b/sib/inner.txt".to_vec(),
+            b"/etc/passwd".to_vec(),
+            b"../../../does-not-exist".to_vec(),
+            b"..".to_vec(),
+        ]),
+        mtime(),
+    )
+        .prop_map(|(n, target, mt)| MNode {
+            name: n,
+            kind: MKind::Symlink { target },
+            perm: 0o777,
+            mtime: mt,
+            ctime: mt,
+            uid: 0,
+            gid: 0,
+            inode: 0,
+            device: 7,
+            links: 1,
+        })
+        .boxed()
+}
+
+fn replacement(p: TreeParams) -> BoxedStrategy<MNode> {
+    prop_oneof![4 => leaf(p), 2 => small_dir(p), 1 => outside_link()].boxed()
+}
+
+fn opt_mtime() -> BoxedStrategy<Option<MTime>> {
+    prop_oneof![2 => mtime().prop_map(Some), 1 => Just(None)].boxed()
+}
+
+fn mutation(p: TreeParams) -> BoxedStrategy<Mutation> {
+    let small = TreeParams {
+        file_cap: p.file_cap.min(p.unit.saturating_mul(4).max(64)),
+        ..p
+    };
+    let m = prop_oneof![
+        2 => Just(Mutn::Absent),
+        2 => mtime().prop_map(Mutn::Touch),
+        5 => (any::<u16>(), piece(p.unit.saturating_mul(2).clamp(1, 100_000)), opt_mtime())
+            .prop_map(|(at, with, mtime)| Mutn::Corrupt { at, with, mtime }),
+        2 => (any::<u16>(), opt_mtime()).prop_map(|(keep, mtime)| Mutn::Truncate { keep, mtime }),
+        2 => (content(p.unit / 4 + 1, p.unit.clamp(16, 100_000)), opt_mtime())
+            .prop_map(|(tail, mtime)| Mutn::Extend { tail, mtime }),
+        5 => replacement(small).prop_map(Mutn::Retype),
+        1 => perm().prop_map(Mutn::Chmod),
+        2 => (any::<bool>(), opt_mtime()).prop_map(|(same_len, mtime)| Mutn::Retarget { same_len, mtime }),
+    ];
+    (any::<u16>(), m).prop_map(|(sel, m)| Mutation { sel, m }).boxed()
+}
+
+/// a file with an all-zero stretch of several chunks between random data (sparse restore)
+fn zero_file(unit: u32) -> BoxedStrategy<MNode> {
+    let unit = unit.clamp(1, 60_000);
+    (
+        any::<u64>(),
+        0..=unit * 2,
+        unit..=unit * 6,
+        0..=unit * 2,
+        mtime(),
+        perm(),
+    )
+        .prop_map(|(seed, a, z, b, mt, pe)| MNode {
+            name: b"zz-holes".to_vec(),
+            kind: MKind::File {
+                content: Content(vec![
+                    Piece::Rand { seed, skip: 0, len: a },
+                    Piece::Zeros { len: z },
+                    Piece::Rand { seed: seed ^ 0x55, skip: 0, len: b },
+                ]),
+            },
+            perm: pe,
+            mtime: mt,
+            ctime: mt,
+            uid: 0,
+            gid: 0,
+            inode: 9_000_001,
+            device: 7,
+            links: 1,
+        })
+        .boxed()
+}
+
+fn ex_strategy(ctx: &Ctx) -> BoxedStrategy<ExCase> {
+    let thorough = ctx.tier.is_thorough();
+    prop_oneof![3 => repo_cfg(), 1 => Just(RepoCfg::simple())]
+        .prop_flat_map(move |cfg| {
+            let p = TreeParams {
+                unit: cfg.unit(),
+                file_cap: if thorough { 1 << 20 } else { 150_000 },
+                max_children: if thorough { 4 } else { 3 },
+                depth: if thorough { 4 } else { 3 },
+            };
+            (
+                Just(cfg),
+                tree(p),
+                prop::option::weighted(0.35, zero_file(p.unit)),
+                prop::bool::weighted(0.35),
+                prop::option::weighted(0.25, any::<u16>()),
+                prop_oneof![6 => Just(Base::Identical), 1 => Just(Base::Empty), 2 => Just(Base::Older)],
+                prop::collection::vec(mutation(p), 0..8),
+                prop::collection::vec(
+                    (
+                        any::<u16>(),
+                        prop_oneof![3 => leaf(TreeParams { file_cap: 5000, ..p }), 2 => small_dir(TreeParams { file_cap: 5000, ..p }), 2 => outside_link()],
+                    ),
+                    0..4,
+                ),
+                opts_strategy(),
+            )
+        })
+        .prop_map(|(cfg, mut tree, zf, keep_hardlinks, sub, base, muts, extras, opts)| {
+            if !keep_hardlinks {
+                // most cases: no hardlink groups, so that the search is not dominated by them
+                fn dissolve(n: &mut MNode, next: &mut u64) {
+                    if n.links > 1 {
+                        n.links = 1;
+                        n.inode = *next;
+                        *next += 1;
+                    }
+                    if let Some(ch) = n.children_mut() {
+                        for c in ch {
+                            dissolve(c, next);
+                        }
+                    }
+                }
+                dissolve(&mut tree, &mut 8_000_000);
+            }
+            if let (Some(z), Some(ch)) = (zf, tree.children_mut()) {
+                if !ch.iter().any(|c| c.name == z.name) {
+                    ch.push(z);
+                }
+                tree.normalise();
+            }
+            ExCase {
+                cfg,
+                tree,
+                sub,
+                base,
+                muts,
+                extras,
+                opts,
+            }
+        })
+        .boxed()
+}
+
+fn path_of(root: &MNode, idx: &[usize]) -> Vec<u8> {
+    // path of the node below `root` (root's own name excluded)
+    let mut n = root;
+    let mut out = Vec::new();
+    for i in idx {
+        n = &n.children()[*i];
+        if !out.is_empty() {
+            out.push(b'/');
+        }
+        out.extend_from_slice(&n.name);
+    }
+    out
+}
+
+fn detach(n: &mut MNode) {
+    n.links = 1;
+    n.inode = 0;
+}
+
+/// The pre-existing destination as a model tree (a nameless root directory) derived from the
+/// top-level nodes that the restore will produce.
+fn build_dest_model(top: &[MNode], c: &ExCase) -> MNode {
+    let mut d = MNode {
+        name: Vec::new(),
+        kind: MKind::Dir {
+            children: match c.base {
+                Base::Empty => Vec::new(),
+                _ => top.to_vec(),
+            },
+        },
+        perm: 0o755,
+        mtime: MTime(OLD, 0),
+        ctime: MTime(OLD, 0),
+        uid: 0,
+        gid: 0,
+        inode: 0,
+        device: 0,
+        links: 1,
+    };
+    if c.base == Base::Older {
+        fn age(n: &mut MNode) {
+            n.mtime = MTime(n.mtime.0 - 3600, n.mtime.1);
+            if let Some(ch) = n.children_mut() {
+                ch.iter_mut().for_each(age);
+            }
+        }
+        if let Some(ch) = d.children_mut() {
+            ch.iter_mut().for_each(age);
+        }
+    }
+    for mu in &c.muts {
+        let want_file = matches!(mu.m, Mutn::Corrupt { .. } | Mutn::Truncate { .. } | Mutn::Extend { .. });
+        let want_link = matches!(mu.m, Mutn::Retarget { .. });
+        let mut cands = paths_where(&d, &|n| {
+            if want_file {
+                n.is_file()
+            } else if want_link {
+                matches!(n.kind, MKind::Symlink { .. })
+            } else {
+                true
+            }
+        });
+        cands.retain(|p| !p.is_empty());
+        if cands.is_empty() {
+            continue;
+        }
+        let at = cands[pick_idx(mu.sel, cands.len())].clone();
+        match &mu.m {
+            Mutn::Absent => {
+                let (parent, i) = (&at[..at.len() - 1], at[at.len() - 1]);
+                _ = node_at_mut(&mut d, parent).children_mut().expect("dir").remove(i);
+            }
+            Mutn::Touch(t) => {
+                let n = node_at_mut(&mut d, &at);
+                n.mtime = *t;
+                if n.is_file() {
+                    detach(n);
+                }
+            }
+            Mutn::Chmod(pe) => {
+                let n = node_at_mut(&mut d, &at);
+                n.perm = if n.is_dir() { *pe | 0o700 } else { *pe };
+                if n.is_file() {
+                    detach(n);
+                }
+            }
+            Mutn::Corrupt { at: off, with, mtime } => {
+                let n = node_at_mut(&mut d, &at);
+                if let MKind::File { content } = &mut n.kind {
+                    let with = if with.len() == 0 { Piece::Lit(vec![0xAA]) } else { with.clone() };
+                    let o = pick_idx(*off, content.len().max(1));
+                    *content = content.overwrite(o, Content(vec![with]));
+                }
+                if let Some(t) = mtime {
+                    n.mtime = *t;
+                }
+                detach(n);
+            }
+            Mutn::Truncate { keep, mtime } => {
+                let n = node_at_mut(&mut d, &at);
+                if let MKind::File { content } = &mut n.kind {
+                    let k = pick_idx(*keep, content.len());
+                    *content = content.slice(0, k);
+                }
+                if let Some(t) = mtime {
+                    n.mtime = *t;
+                }
+                detach(n);
+            }
+            Mutn::Extend { tail, mtime } => {
+                let n = node_at_mut(&mut d, &at);
+                if let MKind::File { content } = &mut n.kind {
+                    let tail = if tail.len() == 0 { Content::lit(vec![b'+']) } else { tail.clone() };
+                    *content = content.clone().concat(tail);
+                }
+                if let Some(t) = mtime {
+                    n.mtime = *t;
+                }
+                detach(n);
+            }
+            Mutn::Retype(new) => {
+                let n = node_at_mut(&mut d, &at);
+                let mut new = new.clone();
+                new.name = n.name.clone();
+                detach(&mut new);
+                *n = new;
+            }
+            Mutn::Retarget { same_len, mtime } => {
+                let n = node_at_mut(&mut d, &at);
+                if let MKind::Symlink { target } = &mut n.kind {
+                    if *same_len {
+                        let l = target.len() - 1;
+                        target[l] = if target[l] == b'q' { b'r' } else { b'q' };
+                    } else {
+                        target.push(b'q');
+                    }
+                }
+                if let Some(t) = mtime {
+                    n.mtime = *t;
+                }
+            }
+        }
+    }
+    for (sel, extra) in &c.extras {
+        let dirs = paths_where(&d, &|n| n.is_dir());
+        let at = dirs[pick_idx(*sel, dirs.len())].clone();
+        let dir = node_at_mut(&mut d, &at);
+        if dir.children().iter().any(|x| x.name == extra.name) {
+            continue;
+        }
+        let mut e = extra.clone();
+        fn det(n: &mut MNode) {
+            detach(n);
+            if let Some(ch) = n.children_mut() {
+                ch.iter_mut().for_each(det);
+            }
+        }
+        det(&mut e);
+        dir.children_mut().expect("dir").push(e);
+    }
+    d
+}
+
+/// write the model tree below `dir` (which exists)
+fn materialise(
+    n: &MNode,
+    dir: &Path,
+    root: bool,
+    links: &mut BTreeMap<(u64, u64), PathBuf>,
+) -> std::io::Result<()> {
+    use std::os::unix::fs::PermissionsExt;
+    for c in n.children() {
+        let p = dir.join(name_os(&c.name));
+        match &c.kind {
+            MKind::File { content } => {
+                let key = (c.device, c.inode);
+                if c.links > 1 && c.inode != 0 {
+                    if let Some(first) = links.get(&key) {
+                        fs::hard_link(first, &p)?;
+                        continue;
+                    }
+                    _ = links.insert(key, p.clone());
+                }
+                fs::write(&p, content.bytes())?;
+            }
+            MKind::Dir { .. } => {
+                fs::create_dir(&p)?;
+                materialise(c, &p, root, links)?;
+            }
+            MKind::Symlink { target } => {
+                std::os::unix::fs::symlink(name_os(target), &p)?;
+            }
+        }
+        if root {
+            std::os::unix::fs::lchown(&p, Some(c.uid), Some(c.gid))?;
+        }
+        if !matches!(c.kind, MKind::Symlink { .. }) {
+            let mut perm = c.perm & 0o7777;
+            if !root {
+                // an unprivileged restore must at least be able to read / enter what is there
+                perm |= if c.is_dir() { 0o700 } else { 0o600 };
+            }
+            fs::set_permissions(&p, fs::Permissions::from_mode(perm))?;
+        }
+        set_mtime(&p, c.mtime)?;
+    }
+    Ok(())
+}
+
+fn flatten_top(top: &[MNode]) -> Flat {
+    let mut m = Flat::new();
+    for t in top {
+        m.extend(flatten(t));
+    }
+    m
+}
+
+fn fs_kind_matches(m: &FlatKind, f: &FsKind) -> bool {
+    matches!(
+        (m, f),
+        (FlatKind::Dir, FsKind::Dir) | (FlatKind::File(_), FsKind::File(_)) | (FlatKind::Symlink(_), FsKind::Symlink(_))
+    )
+}
+
+fn parent_of(k: &[u8]) -> Option<&[u8]> {
+    k.iter().rposition(|b| *b == b'/').map(|i| &k[..i])
+}
+
+/// hardlink group members after the first one in stream (pre-) order
+fn later_hardlink_members(top: &[MNode]) -> Vec<Vec<u8>> {
+    fn rec(n: &MNode, prefix: &[u8], seen: &mut BTreeSet<(u64, u64)>, out: &mut Vec<Vec<u8>>) {
+        let mut path = prefix.to_vec();
+        if !path.is_empty() {
+            path.push(b'/');
+        }
+        path.extend_from_slice(&n.name);
+        if n.is_file() && n.links > 1 && n.device != 0 && n.inode != 0 && !seen.insert((n.device, n.inode)) {
+            out.push(path.clone());
+        }
+        for c in n.children() {
+            rec(c, &path, seen, out);
+        }
+    }
+    let mut seen = BTreeSet::new();
+    let mut out = Vec::new();
+    for t in top {
+        rec(t, b"", &mut seen, &mut out);
+    }
+    out
+}
+
+/// is the content of this snapshot path within the premise of the statement?
+/// (not: same size, same mtime, other bytes, verification off)
+fn content_judged(m: &FlatEntry, pre: Option<&FsEntry>, verify: bool) -> bool {
+    let Some(p) = pre else { return true };
+    if verify || p.mtime != (m.mtime.0, m.mtime.1) {
+        return true;
+    }
+    match (&m.kind, &p.kind) {
+        (FlatKind::File(want), FsKind::File(have)) => want.len() != have.len() || want[..] == have[..],
+        (FlatKind::Symlink(want), FsKind::Symlink(have)) => want.len() != have.len() || want == have,
+        _ => true,
+    }
+}
+
+struct ExFacts {
+    keys: Vec<&'static str>,
+    type_conflict: bool,
+    same_size_changed: u64,
+    truncated: u64,
+    longer: u64,
+    identical: u64,
+    absent: u64,
+    unjudged: u64,
+    free_extras: Vec<Vec<u8>>,
+}
+
+fn free_extras(m: &Flat, pre: &BTreeMap<Vec<u8>, FsEntry>) -> Vec<Vec<u8>> {
+    pre.keys()
+        .filter(|k| !m.contains_key(*k))
+        .filter(|k| {
+            let mut cur: &[u8] = k;
+            while let Some(p) = parent_of(cur) {
+                if let Some(me) = m.get(p) {
+                    if me.kind != FlatKind::Dir {
+                        return false;
+                    }
+                }
+                cur = p;
+            }
+            true
+        })
+        .cloned()
+        .collect()
+}
+
+fn ex_facts(top: &[MNode], m: &Flat, pre: &BTreeMap<Vec<u8>, FsEntry>, o: &Opts) -> ExFacts {
+    let mut f = ExFacts {
+        keys: Vec::new(),
+        type_conflict: false,
+        same_size_changed: 0,
+        truncated: 0,
+        longer: 0,
+        identical: 0,
+        absent: 0,
+        unjudged: 0,
+        free_extras: free_extras(m, pre),
+    };
+    let mut link_differs = false;
+    let mut sparse_stale = false;
+    let mut nondir_at_leafy_dir = false;
+    for (k, me) in m {
+        let Some(p) = pre.get(k) else {
+            f.absent += 1;
+            continue;
+        };
+        if !fs_kind_matches(&me.kind, &p.kind) {
+            f.type_conflict = true;
+            if me.kind == FlatKind::Dir {
+                // will anything below it force the directory into existence?
+                let mut prefix = k.clone();
+                prefix.push(b'/');
+                let has_creating_child = m
+                    .range(prefix.clone()..)
+                    .take_while(|(c, _)| c.starts_with(&prefix))
+                    .any(|(c, ce)| !c[prefix.len()..].contains(&b'/') && !matches!(ce.kind, FlatKind::Symlink(_)));
+                if !has_creating_child {
+                    nondir_at_leafy_dir = true;
+                }
+            }
+            continue;
+        }
+        match (&me.kind, &p.kind) {
+            (FlatKind::File(want), FsKind::File(have)) => {
+                if !content_judged(me, Some(p), o.verify_existing) {
+                    f.unjudged += 1;
+                }
+                if want[..] == have[..] {
+                    f.identical += 1;
+                } else if want.len() == have.len() {
+                    f.same_size_changed += 1;
+                } else if have.len() < want.len() {
+                    f.truncated += 1;
+                } else {
+                    f.longer += 1;
+                }
+                if want.iter().zip(have.iter()).any(|(w, h)| *w == 0 && *h != 0) {
+                    sparse_stale = true;
+                }
+            }
+            (FlatKind::Symlink(want), FsKind::Symlink(have)) => {
+                if want != have {
+                    link_differs = true;
+                }
+            }
+            _ => {}
+        }
+    }
+    let later = later_hardlink_members(top);
+    let hardlink_exists = later
+        .iter()
+        .any(|k| pre.get(k).is_some_and(|p| matches!(p.kind, FsKind::File(_))));
+    // input-side predicates of the findings (evaluated before the library runs)
+    if !o.delete && f.type_conflict {
+        f.keys.push("type-conflict-no-delete");
+    }
+    if !o.delete && link_differs {
+        f.keys.push("symlink-differs-no-delete");
+    }
+    if hardlink_exists {
+        f.keys.push("hardlink-member-exists");
+    }
+    if o.sparse && sparse_stale {
+        f.keys.push("sparse-stale-bytes");
+    }
+    if o.delete && nondir_at_leafy_dir {
+        f.keys.push("nondir-at-dir-path-delete");
+    }
+    f
+}
+
+/// compare the destination after the restore with the snapshot model; None = as promised
+fn ex_compare(
+    m: &Flat,
+    pre: &BTreeMap<Vec<u8>, FsEntry>,
+    post: &BTreeMap<Vec<u8>, FsEntry>,
+    o: &Opts,
+    ownership: bool,
+) -> Option<String> {
+    for (k, me) in m {
+        let p = show_path(k);
+        let was = pre.get(k);
+        let was_txt = match was {
+            None => "absent before".to_string(),
+            Some(w) => format!("a {} before", kind_name(&w.kind)),
+        };
+        let Some(f) = post.get(k) else {
+            return Some(format!("snapshot path {p:?} does not exist after the restore ({was_txt})"));
+        };
+        if !fs_kind_matches(&me.kind, &f.kind) {
+            return Some(format!(
+                "snapshot path {p:?} is a {} after the restore, the snapshot has a {} ({was_txt})",
+                kind_name(&f.kind),
+                match me.kind {
+                    FlatKind::Dir => "dir",
+                    FlatKind::File(_) => "file",
+                    FlatKind::Symlink(_) => "symlink",
+                }
+            ));
+        }
+        if content_judged(me, was, o.verify_existing) {
+            match (&me.kind, &f.kind) {
+                (FlatKind::File(want), FsKind::File(have)) if want[..] != have[..] => {
+                    let pos = have.iter().zip(want.iter()).position(|(a, b)| a != b);
+                    let stale = match (pos, was) {
+                        (Some(i), Some(FsEntry { kind: FsKind::File(old), .. })) if old.get(i) == have.get(i) => {
+                            " (the byte there is the one of the pre-existing file)"
+                        }
+                        _ => "",
+                    };
+                    return Some(format!(
+                        "{p:?}: content differs from the snapshot after the restore ({} bytes on disk, {} in the snapshot, first difference at {pos:?}{stale}; {was_txt})",
+                        have.len(),
+                        want.len()
+                    ));
+                }
+                (FlatKind::Symlink(want), FsKind::Symlink(have)) if want != have => {
+                    return Some(format!(
+                        "{p:?}: link target {:?} after the restore, snapshot has {:?} ({was_txt})",
+                        show_path(have),
+                        show_path(want)
+                    ));
+                }
+                _ => {}
+            }
+        }
+        if !matches!(me.kind, FlatKind::Symlink(_)) && f.mode != (me.perm & 0o7777) {
+            return Some(format!(
+                "{p:?}: mode {:#o} after the restore, snapshot has {:#o} ({was_txt})",
+                f.mode,
+                me.perm & 0o7777
+            ));
+        }
+        if f.mtime != (me.mtime.0, me.mtime.1) {
+            return Some(format!(
+                "{p:?}: mtime {:?} after the restore, snapshot has {:?} ({was_txt})",
+                f.mtime, me.mtime
+            ));
+        }
+        if ownership && (f.uid != me.uid || f.gid != me.gid) {
+            return Some(format!(
+                "{p:?}: owner {}:{} after the restore, snapshot has {}:{} ({was_txt})",
+                f.uid, f.gid, me.uid, me.gid
+            ));
+        }
+    }
+    for k in post.keys() {
+        if !m.contains_key(k) && !pre.contains_key(k) {
+            return Some(format!(
+                "the restore created {:?}, which is neither in the snapshot nor was in the destination",
+                show_path(k)
+            ));
+        }
+    }
+    None
+}
+
+/// the extra entries (not at or below any snapshot path): gone iff delete, else untouched
+fn extras_check(
+    free: &[Vec<u8>],
+    pre: &BTreeMap<Vec<u8>, FsEntry>,
+    post: &BTreeMap<Vec<u8>, FsEntry>,
+    delete: bool,
+    completed: bool,
+) -> Option<String> {
+    for k in free {
+        match (delete, post.get(k)) {
+            (true, Some(_)) if completed => {
+                return Some(format!(
+                    "extra entry {:?} still exists although deletion was requested",
+                    show_path(k)
+                ));
+            }
+            (false, None) => {
+                return Some(format!(
+                    "extra entry {:?} was removed although deletion was not requested",
+                    show_path(k)
+                ));
+            }
+            (false, Some(a)) if a != &pre[k] => {
+                return Some(format!(
+                    "extra entry {:?} was modified although deletion was not requested ({})",
+                    show_path(k),
+                    describe_change(&pre[k], a)
+                ));
+            }
+            _ => {}
+        }
+    }
+    None
+}
+
+/// number of blobs of the file and how many of them the pre-existing bytes already satisfy
+fn blob_match_stats(repo: &RepoFull, node: &Node, have: &[u8], want: &[u8]) -> Option<(usize, usize)> {
+    let ids = node.content.as_ref()?;
+    let mut pos = 0usize;
+    let mut same = 0usize;
+    for id in ids {
+        let ie = guarded(|| repo.get_index_entry(id)).ok()?.ok()?;
+        let len = ie.location.data_length() as usize;
+        if pos + len <= have.len() && pos + len <= want.len() && have[pos..pos + len] == want[pos..pos + len] {
+            same += 1;
+        }
+        pos += len;
+    }
+    Some((ids.len(), same))
+}
+
+pub fn ex_run(c: &ExCase, ctx: &Ctx) -> Outcome {
+    let root = is_root();
+    let mut out = Outcome::pass()
+        .class(format!("base_{:?}", c.base).to_lowercase())
+        .class_if(c.opts.delete, "delete")
+        .class_if(c.opts.verify_existing, "verify_existing")
+        .class_if(c.opts.sparse, "sparse")
+        .class_if(c.opts.no_ownership || !root, "no_ownership")
+        .class_if(c.opts.numeric_id, "numeric_id");
+    macro_rules! fail {
+        ($keys:expr, $($arg:tt)*) => {{
+            out.failure = Some(format!($($arg)*));
+            return finish(out, ctx, $keys);
+        }};
+    }
+
+    // 1. the snapshot
+    let storage = Storage::new();
+    let repo = match init_repo(storage.handle(), &c.cfg).and_then(|r| r.to_indexed_ids().map_err(|e| estr(&e))) {
+        Ok(r) => r,
+        Err(e) => fail!(&[], "setting up the repository: {e}"),
+    };
+    let snap = match backup_tree(
+        &repo,
+        &c.tree,
+        &ReadSchedule::default(),
+        &force_opts(),
+        snap_template(1_700_000_000, "host", "", ""),
+    ) {
+        Ok(s) => s,
+        // C01's subject, not ours
+        Err(e) => return out.skip(format!("backup failed: {}", crate::engine::first_line(&e))),
+    };
+    drop(repo);
+    let full = match open_full(&storage, &c.cfg) {
+        Ok(r) => r,
+        Err(e) => return out.skip(format!("cannot reopen: {}", crate::engine::first_line(&e))),
+    };
+
+    // 2. what is restored: the root or a sub-directory of the snapshot
+    let mut node_path = String::new();
+    let mut top: Vec<MNode> = vec![c.tree.clone()];
+    if let Some(sel) = c.sub {
+        let mut dirs = paths_where(&c.tree, &|n| n.is_dir());
+        dirs.retain(|d| {
+            let mut p = c.tree.name.clone();
+            let rel = path_of(&c.tree, d);
+            if !rel.is_empty() {
+                p.push(b'/');
+                p.extend_from_slice(&rel);
+            }
+            std::str::from_utf8(&p).is_ok()
+        });
+        if !dirs.is_empty() {
+            let d = &dirs[pick_idx(sel, dirs.len())];
+            let mut p = c.tree.name.clone();
+            let rel = path_of(&c.tree, d);
+            if !rel.is_empty() {
+                p.push(b'/');
+                p.extend_from_slice(&rel);
+            }
+            node_path = String::from_utf8(p).expect("checked");
+            top = crate::r#gen::node_at(&c.tree, d).children().to_vec();
+            out = out.class("sub_node");
+        }
+    }
+    let m = flatten_top(&top);
+
+    // 3. sandbox with sentinels and the pre-existing destination
+    let scratch = Scratch::new("c14");
+    let s = scratch.path();
+    let dest = match make_sandbox(s) {
+        Ok(d) => d,
+        Err(e) => fail!(&[], "harness: cannot build the sandbox: {e}"),
+    };
+    let dmodel = build_dest_model(&top, c);
+    if let Err(e) = materialise(&dmodel, &dest, root, &mut BTreeMap::new()) {
+        return out.skip(format!("harness: cannot materialise the destination: {e}"));
+    }
+    let (pre, before) = match (walk(&dest), outside_state(s)) {
+        (Ok(a), Ok(b)) => (a, b),
+        (a, b) => fail!(&[], "harness: cannot walk the sandbox: {:?} {:?}", a.err(), b.err()),
+    };
+    let facts = ex_facts(&top, &m, &pre, &c.opts);
+    let keys = facts.keys.clone();
+    out = out
+        .class_if(facts.type_conflict, "type_conflict")
+        .class_if(facts.same_size_changed > 0, "same_size_changed_file")
+        .class_if(facts.truncated > 0, "truncated_file")
+        .class_if(facts.longer > 0, "longer_file")
+        .class_if(facts.identical > 0, "identical_file")
+        .class_if(facts.absent > 0, "absent_path")
+        .class_if(facts.unjudged > 0, "unjudged_same_size_mtime")
+        .class_if(!facts.free_extras.is_empty(), "extras")
+        .class_if(m.values().any(|e| e.links > 1), "has_hardlink")
+        .class_if(keys.is_empty(), "judged_fully");
+    for k in &keys {
+        out = out.class(format!("matches:{k}"));
+    }
+
+    // partial rewrite: an existing same-size file of which some blobs match and some do not
+    let mut partial = false;
+    if facts.same_size_changed > 0 {
+        if let Ok(got) = read_snapshot(&full, &snap, false) {
+            let prefix: Vec<u8> = if node_path.is_empty() {
+                Vec::new()
+            } else {
+                let mut p = node_path.clone().into_bytes();
+                p.push(b'/');
+                p
+            };
+            for (k, me) in &m {
+                if let (FlatKind::File(want), Some(FsEntry { kind: FsKind::File(have), mtime, .. })) = (&me.kind, pre.get(k)) {
+                    if want.len() == have.len()
+                        && want[..] != have[..]
+                        && (c.opts.verify_existing || *mtime != (me.mtime.0, me.mtime.1))
+                    {
+                        let mut key = prefix.clone();
+                        key.extend_from_slice(k);
+                        if let Some(g) = got.get(&key) {
+                            if let Some((n, same)) = blob_match_stats(&full, &g.node, have, want) {
+                                if same > 0 && same < n {
+                                    partial = true;
+                                }
+                            }
+                        }
+                    }
+                }
+            }
+        }
+    }
+    out = out.class_if(partial, "partial_rewrite");
+    out.nontrivial = partial || facts.type_conflict;
+
+    // 4. the restore
+    let ropts = c.opts.restore_options(root);
+    let res = restore_at(&full, &snap, &node_path, &dest, &ropts);
+    out = out.class(if res.is_ok() { "restore_ok" } else { "restore_err" });
+
+    // 5. nothing outside the destination may change, whatever happened
+    let after = match outside_state(s) {
+        Ok(a) => a,
+        Err(e) => fail!(&keys, "cannot walk the sandbox after the restore: {e}"),
+    };
+    if let Some(d) = outside_diff(&before, &after) {
+        fail!(&keys, "restore of a snapshot with ordinary names: {d}");
+    }
+    let post = match walk(&dest) {
+        Ok(p) => p,
+        Err(e) => fail!(&keys, "cannot walk the destination after the restore: {e}"),
+    };
+    if let Some(d) = extras_check(&facts.free_extras, &pre, &post, c.opts.delete, res.is_ok()) {
+        fail!(&keys, "{d}");
+    }
+    if let Err(e) = res {
+        fail!(&keys, "restore into an existing destination failed: {e}");
+    }
+    let ownership = root && !c.opts.no_ownership;
+    if let Some(d) = ex_compare(&m, &pre, &post, &c.opts, ownership) {
+        fail!(&keys, "{d}");
+    }
+    finish(out, ctx, &keys)
+}
+
+// ---------------------------------------------------------------------------------------------
+// sub-check "hostile"
+// ---------------------------------------------------------------------------------------------
+
+#[derive(Debug, Clone, PartialEq, Eq, Serialize, Deserialize)]
+pub enum HName {
+    Normal(String),
+    /// `..` repeated `ups` times, then the tail (if any): `..`, `../x`, `../../x`, `../..`
+    Up { ups: u8, tail: Option<String> },
+    /// absolute path into the sandbox: `S/abs-target/<tail>`
+    Abs(String),
+    /// absolute path of an existing sentinel directory itself: `S/abs-target`
+    AbsDir,
+    /// `a/b`
+    Sep(String, String),
+    Dot,
+    Empty,
+    /// `./x`
+    DotSlash(String),
+    /// `x/`
+    TrailingSlash(String),
+    /// `x/../../y` (goes up after going down)
+    DownUp(String, u8, String),
+    /// a name with a NUL byte
+    Nul(String),
+}
+
+#[derive(Debug, Clone, PartialEq, Eq, Serialize, Deserialize)]
+pub enum HKind {
+    File(Content),
+    Dir(Vec<HNode>),
+    Symlink(String),
+}
+
+#[derive(Debug, Clone, PartialEq, Eq, Serialize, Deserialize)]
+pub struct HNode {
+    pub name: HName,
+    pub kind: HKind,
+    pub perm: u32,
+}
+
+#[derive(Debug, Clone, Serialize, Deserialize)]
+pub struct HostCase {
+    pub nodes: Vec<HNode>,
+    pub opts: Opts,
+    /// the destination already holds an earlier, harmless tree
+    pub predest: bool,
+}
+
+fn tail() -> BoxedStrategy<String> {
+    prop::sample::select(vec!["x", "side.txt", "sib", "new", "keep", "sentinel.txt"])
+        .prop_map(str::to_string)
+        .boxed()
+}
+
+/// `parent_names`: also names that are absolute or contain a `..` component
+fn hname(parent_names: bool) -> BoxedStrategy<HName> {
+    let w = u32::from(parent_names);
+    prop_oneof![
+        3 => "[a-c]{1,2}".prop_map(HName::Normal),
+        6 * w => (1u8..=2, prop::option::weighted(0.8, tail())).prop_map(|(ups, tail)| HName::Up { ups, tail }),
+        3 * w => tail().prop_map(HName::Abs),
+        w => Just(HName::AbsDir),
+        2 => ("[a-c]", tail()).prop_map(|(a, b)| HName::Sep(a, b)),
+        1 => Just(HName::Dot),
+        1 => Just(HName::Empty),
+        1 => tail().prop_map(HName::DotSlash),
+        1 => tail().prop_map(HName::TrailingSlash),
+        2 * w => ("[a-c]", 2u8..=3, tail()).prop_map(|(a, n, b)| HName::DownUp(a, n, b)),
+        1 => tail().prop_map(HName::Nul),
+    ]
+    .boxed()
+}
+
+fn hleaf(parent_names: bool) -> BoxedStrategy<HNode> {
+    let kind = prop_oneof![
+        4 => content(64, 3000).prop_map(HKind::File),
+        1 => Just(HKind::Dir(Vec::new())),
+        1 => prop::sample::select(vec!["t", "../t", "/etc/passwd"]).prop_map(|t| HKind::Symlink(t.to_string())),
+    ];
+    (hname(parent_names), kind, prop::sample::select(vec![0o644u32, 0o600, 0o755, 0o777, 0o4755, 0]))
+        .prop_map(|(name, kind, perm)| HNode { name, kind, perm })
+        .boxed()
+}
+
+fn hnode(parent_names: bool) -> BoxedStrategy<HNode> {
+    prop_oneof![
+        3 => hleaf(parent_names),
+        2 => (
+            hname(parent_names),
+            prop::collection::vec(hleaf(parent_names), 0..3),
+            prop::sample::select(vec![0o755u32, 0o700, 0o777])
+        )
+            .prop_map(|(name, ch, perm)| HNode { name, kind: HKind::Dir(ch), perm }),
+    ]
+    .boxed()
+}
+
+fn host_strategy(_ctx: &Ctx) -> BoxedStrategy<HostCase> {
+    // half of the cases stay outside the predicate of the known path-traversal finding
+    any::<bool>()
+        .prop_flat_map(|parent_names| {
+            (
+                prop::collection::vec(hnode(parent_names), 1..5),
+                opts_strategy(),
+                prop::bool::weighted(0.3),
+            )
+        })
+        .prop_map(|(nodes, opts, predest)| HostCase { nodes, opts, predest })
+        .boxed()
+}
+
+impl HName {
+    fn render(&self, s: &Path) -> String {
+        let sp = s.to_str().expect("utf-8 scratch path");
+        match self {
+            HName::Normal(n) => n.clone(),
+            HName::Up { ups, tail } => {
+                let mut parts: Vec<&str> = vec![".."; usize::from(*ups)];
+                if let Some(t) = tail {
+                    parts.push(t);
+                }
+                parts.join("/")
+            }
+            HName::Abs(t) => format!("{sp}/abs-target/{t}"),
+            HName::AbsDir => format!("{sp}/abs-target"),
+            HName::Sep(a, b) => format!("{a}/{b}"),
+            HName::Dot => ".".to_string(),
+            HName::Empty => String::new(),
+            HName::DotSlash(t) => format!("./{t}"),
+            HName::TrailingSlash(t) => format!("{t}/"),
+            HName::DownUp(a, n, b) => format!("{a}/{}/{b}", vec![".."; usize::from(*n)].join("/")),
+            HName::Nul(t) => format!("{t}\0{t}"),
+        }
+    }
+
+    /// lexical depth change sequence: does joining this name at `depth` components below the
+    /// destination leave the destination? Returns the new depth, None = escaped.
+    fn walk_depth(&self, depth: i32) -> Option<i32> {
+        match self {
+            HName::Abs(_) | HName::AbsDir => None,
+            HName::Normal(_) | HName::Nul(_) => Some(depth + 1),
+            HName::Up { ups, tail } => {
+                let d = depth - i32::from(*ups);
+                if d < 0 { None } else { Some(d + i32::from(tail.is_some())) }
+            }
+            HName::Sep(..) => Some(depth + 2),
+            HName::Dot | HName::Empty => Some(depth),
+            HName::DotSlash(_) | HName::TrailingSlash(_) => Some(depth + 1),
+            HName::DownUp(_, n, _) => {
+                let d = depth + 1 - i32::from(*n);
+                if d < 0 { None } else { Some(d + 1) }
+            }
+        }
+    }
+}
+
+/// does any node path lexically leave the destination? (classification only)
+fn escapes(nodes: &[HNode], depth: i32) -> bool {
+    nodes.iter().any(|n| match n.name.walk_depth(depth) {
+        None => true,
+        Some(d) => match &n.kind {
+            HKind::Dir(ch) => escapes(ch, d),
+            _ => false,
+        },
+    })
+}
+
+/// input-side predicate of the finding: some stored name is absolute or has a `..` component.
+/// (Purely lexical resolution per node is not enough: the node streamer pushes a multi-component
+/// name and pops a single component, so `a/../../x` followed by a sibling `..` also escapes.)
+fn has_parent_or_abs(nodes: &[HNode]) -> bool {
+    nodes.iter().any(|n| {
+        matches!(n.name, HName::Up { .. } | HName::Abs(_) | HName::AbsDir | HName::DownUp(..))
+            || matches!(&n.kind, HKind::Dir(ch) if has_parent_or_abs(ch))
+    })
+}
+
+fn hostile_entries(
+    nodes: &[HNode],
+    parent: &Path,
+    s: &Path,
+    out: &mut Vec<(PathBuf, Node, Option<Arc<Vec<u8>>>)>,
+) {
+    for (i, n) in nodes.iter().enumerate() {
+        let safe = format!("n{i:02}");
+        let path = parent.join(&safe);
+        let (node_type, data, children): (NodeType, Option<Arc<Vec<u8>>>, &[HNode]) = match &n.kind {
+            HKind::File(c) => (NodeType::File, Some(Arc::new(c.bytes())), &[]),
+            HKind::Dir(ch) => (NodeType::Dir, None, ch),
+            HKind::Symlink(t) => (NodeType::from_link(Path::new(t)), None, &[]),
+        };
+        let type_bits: u32 = match node_type {
+            NodeType::Dir => 1 << 31,
+            NodeType::Symlink { .. } => 1 << 27,
+            _ => 0,
+        };
+        let mut mode = n.perm & 0o777;
+        if n.perm & 0o4000 != 0 {
+            mode |= 1 << 23;
+        }
+        let t = MTime(1_600_000_000, 0).to_jiff();
+        let meta = Metadata {
+            mode: Some(mode | type_bits),
+            mtime: Some(t),
+            atime: Some(t),
+            ctime: Some(t),
+            uid: Some(0),
+            gid: Some(0),
+            user: None,
+            group: None,
+            inode: 1000 + out.len() as u64,
+            device_id: 7,
+            size: data.as_ref().map_or(0, |d| d.len() as u64),
+            links: 1,
+            extended_attributes: Vec::new(),
+        };
+        let mut node = Node::new_node(OsStr::new(&safe), node_type, meta);
+        // the hostile name goes into the stored tree as it is (none of these need escaping)
+        node.name = n.name.render(s);
+        out.push((path.clone(), node, data));
+        hostile_entries(children, &path, s, out);
+    }
+}
+
+pub fn host_run(c: &HostCase, ctx: &Ctx) -> Outcome {
+    let root = is_root();
+    let mut out = Outcome::pass().nontrivial(true);
+    let esc = escapes(&c.nodes, 1);
+    let keys: Vec<&'static str> = if has_parent_or_abs(&c.nodes) {
+        vec!["node-name-escapes-destination"]
+    } else {
+        vec![]
+    };
+    out = out
+        .class(if esc { "lexically_escaping" } else { "lexically_inside" })
+        .class_if(c.opts.delete, "delete")
+        .class_if(c.predest, "predest");
+    fn classes(nodes: &[HNode], out: &mut BTreeSet<&'static str>) {
+        for n in nodes {
+            _ = out.insert(match n.name {
+                HName::Normal(_) => "name_normal",
+                HName::Up { .. } => "name_dotdot",
+                HName::Abs(_) | HName::AbsDir => "name_absolute",
+                HName::Sep(..) => "name_separator",
+                HName::Dot => "name_dot",
+                HName::Empty => "name_empty",
+                HName::DotSlash(_) | HName::TrailingSlash(_) => "name_slash_variants",
+                HName::DownUp(..) => "name_down_up",
+                HName::Nul(_) => "name_nul",
+            });
+            if let HKind::Dir(ch) = &n.kind {
+                if !ch.is_empty() {
+                    _ = out.insert("hostile_dir_with_children");
+                }
+                classes(ch, out);
+            }
+        }
+    }
+    let mut cl = BTreeSet::new();
+    classes(&c.nodes, &mut cl);
+    for k in cl {
+        out = out.class(k);
+    }
+    macro_rules! fail {
+        ($($arg:tt)*) => {{
+            out.failure = Some(format!($($arg)*));
+            return finish(out, ctx, &keys);
+        }};
+    }
+
+    let scratch = Scratch::new("c14h");
+    let s = scratch.path();
+    let dest = match make_sandbox(s) {
+        Ok(d) => d,
+        Err(e) => fail!("harness: cannot build the sandbox: {e}"),
+    };
+    if c.predest {
+        let r = (|| -> std::io::Result<()> {
+            fs::create_dir_all(dest.join("s/a"))?;
+            fs::write(dest.join("s/a/old"), b"old content")?;
+            fs::write(dest.join("x"), b"old x in dest")?;
+            fs::write(dest.join("s/x"), b"old x in s")?;
+            Ok(())
+        })();
+        if let Err(e) = r {
+            fail!("harness: cannot fill the destination: {e}");
+        }
+    }
+
+    // the snapshot with the names as generated
+    let cfg = RepoCfg::simple();
+    let storage = Storage::new();
+    let repo = match init_repo(storage.handle(), &cfg).and_then(|r| r.to_indexed_ids().map_err(|e| estr(&e))) {
+        Ok(r) => r,
+        Err(e) => fail!("setting up the repository: {e}"),
+    };
+    let t = MTime(1_600_000_000, 0).to_jiff();
+    let root_meta = Metadata {
+        mode: Some(0o755 | (1 << 31)),
+        mtime: Some(t),
+        atime: Some(t),
+        ctime: Some(t),
+        uid: Some(0),
+        gid: Some(0),
+        inode: 1,
+        device_id: 7,
+        links: 1,
+        ..Metadata::default()
+    };
+    let mut entries = vec![(
+        PathBuf::from("s"),
+        Node::new_node(OsStr::new("s"), NodeType::Dir, root_meta),
+        None,
+    )];
+    hostile_entries(&c.nodes, Path::new("s"), s, &mut entries);
+    let src = MemSource::from_entries(entries);
+    let snap = match guarded(|| {
+        repo.archive(
+            &force_opts(),
+            &src,
+            snap_template(1_700_000_000, "host", "", ""),
+            &[PathBuf::from("s")],
+        )
+    }) {
+        Ok(Ok(sn)) => sn,
+        Ok(Err(e)) => return finish(out.skip(format!("backup refused the tree: {}", crate::engine::first_line(&estr(&e)))), ctx, &[]),
+        Err(p) => return finish(out.skip(format!("backup panicked on the tree: {}", crate::engine::first_line(&p))), ctx, &[]),
+    };
+    drop(repo);
+    let full = match open_full(&storage, &cfg) {
+        Ok(r) => r,
+        Err(e) => return out.skip(format!("cannot reopen: {}", crate::engine::first_line(&e))),
+    };
+
+    let before = match outside_state(s) {
+        Ok(b) => b,
+        Err(e) => fail!("harness: cannot walk the sandbox: {e}"),
+    };
+    let res = restore_at(&full, &snap, "", &dest, &c.opts.restore_options(root));
+    out = out.class(match &res {
+        Ok(()) => "restore_ok",
+        Err(e) if e.contains("panicked") => "restore_panicked",
+        Err(_) => "restore_err",
+    });
+    let after = match outside_state(s) {
+        Ok(a) => a,
+        Err(e) => fail!("cannot walk the sandbox after the restore: {e}"),
+    };
+    if let Some(d) = outside_diff(&before, &after) {
+        fail!(
+            "restore ({}) of a snapshot whose trees contain crafted node names: {d}",
+            if res.is_ok() { "returned Ok" } else { "failed" }
+        );
+    }
+    finish(out, ctx, &keys)
+}
 
 pub fn spec() -> PropSpec {
     PropSpec {
         id: "C14",
         level: "exploration",
-        rule: "",
-        assumptions: vec![],
-        subs: vec![],
+        rule: "proptest. Sub 'existing': repository configuration x source tree (<=3-4 children, depth <=3-4, files 0..150 kB sized relative to the chunk size, hardlinks, symlinks, special names, optionally a file with a multi-chunk all-zero stretch) backed up through an in-memory source; the destination S/a/b/dest is materialised from the snapshot model (identical incl. mtime / empty / all mtimes older) by a generated mutation list (absent, touched, same-size overwrite with kept or changed mtime, truncated, longer, replaced by a file/dir/symlink of any type, chmod, symlink retargeted with same/different length) plus unrelated extra files/dirs/symlinks (incl. symlinks pointing out of the destination); options delete, verify_existing, sparse=ByContent, no_ownership, numeric_id; restore of the snapshot root or of a sub-directory. Sub 'hostile': 1-4 nodes (files, symlinks, directories with children) whose stored names are '..', '../x', '../../x', '../..', an absolute path into the sandbox, 'a/b', '.', '', './x', 'x/', 'a/../../x', a name with NUL. Non-trivial = a pre-existing same-size file of which some blobs match the snapshot and some do not (premise of the statement holds), or a snapshot path occupied by an entry of another type, or (hostile) any crafted name; distinct by hash of the case.",
+        assumptions: vec![
+            "the destination is on tmpfs (/dev/shm); ownership is compared only when running as root and no_ownership is off",
+            "content of a pre-existing file with the snapshot's size and mtime but other bytes is not judged unless verify_existing is on (outside the premise of the statement); the same rule is applied to symlink targets",
+            "hardlink identity after the restore is not judged here (C01 does for fresh restores); xattrs, devices, fifos are not generated",
+            "hostile names are injected through the archiver (ReadSource nodes with the name field set), not by hand-crafting tree blobs; lexical escapes are bounded so that they stay inside the sandbox",
+        ],
+        subs: vec![
+            Box::new(Sub {
+                name: "existing",
+                cases_quick: 800,
+                cases_thorough: 25_000,
+                max_shrink_iters: 300,
+                strategy: ex_strategy,
+                run: ex_run,
+            }) as Box<dyn DynSub>,
+            Box::new(Sub {
+                name: "hostile",
+                cases_quick: 300,
+                cases_thorough: 10_000,
+                max_shrink_iters: 300,
+                strategy: host_strategy,
+                run: host_run,
+            }) as Box<dyn DynSub>,
+        ],
         extra: None,
     }
 }
